@@ -408,6 +408,7 @@ pub fn run(which: Which, tier: Tier) -> i32 {
         dot_layer(&mut rep);
         dot_grid_layer(&mut rep);
         typed_prefix_layer(&mut rep);
+        unqualified_import_layer(&mut rep);
     } else {
         namespace_layer(&mut rep);
     }
@@ -743,6 +744,122 @@ fn dot_grid_layer(rep: &mut Report) {
 }
 
 
+/// Unqualified imports over every module content with shared spellings: a type `X` (public,
+/// private or opaque) with one constructor spelled `X`, `Y` or `P`, optionally a second type `Y`
+/// with a constructor spelled `X`, `Y` or `Q`, functions and constants (absent, public, private);
+/// each declared spelling imported by name (with and without `as`, and as `type`). At an
+/// expression position the imported name is offered exactly when the module exports a *value*
+/// under that spelling.
+fn unqualified_import_cases() -> Vec<(String, Vec<(String, String)>, usize, String, bool)> {
+    // (name, modules, cursor offset in main, local name, must be offered (else: must not))
+    let vis = [("pub", "pub type"), ("private", "type"), ("opaque", "pub opaque type")];
+    let mut out = vec![];
+    for (v1n, v1) in vis {
+        for c1 in ["X", "Y", "P"] {
+            let mut seconds: Vec<Option<(&str, &str, &str)>> = vec![None];
+            for (v2n, v2) in vis {
+                for c2 in ["X", "Y", "Q"] {
+                    if c2 != c1 {
+                        seconds.push(Some((v2n, v2, c2)));
+                    }
+                }
+            }
+            for second in seconds {
+                for (fvn, fv) in [("none", None), ("pub", Some("pub ")), ("private", Some(""))] {
+                    let mut m = format!("{v1} X {{ {c1}(Int) }}\n");
+                    // spelling -> is there a public value
+                    let mut values: Vec<(&str, bool)> = vec![(c1, v1n == "pub")];
+                    let mut spellings: BTreeSet<&str> = ["X", c1].into_iter().collect();
+                    if let Some((v2n, v2, c2)) = second {
+                        m.push_str(&format!("{v2} Y {{ {c2}(Int) }}\n"));
+                        values.push((c2, v2n == "pub"));
+                        spellings.insert("Y");
+                        spellings.insert(c2);
+                    }
+                    if let Some(fv) = fv {
+                        m.push_str(&format!("{fv}fn f() {{ 0 }}\n{fv}const k = 1\n"));
+                        values.push(("f", fvn == "pub"));
+                        values.push(("k", fvn == "pub"));
+                        spellings.insert("f");
+                        spellings.insert("k");
+                    }
+                    let tag = format!("X:{v1n}:{c1}|Y:{}|fk:{fvn}", second.map(|s| format!("{}:{}", s.0, s.2)).unwrap_or("none".into()));
+                    for sp in &spellings {
+                        let upper = sp.chars().next().unwrap().is_ascii_uppercase();
+                        let alias = if upper { "Al" } else { "al" };
+                        let public_value = values.iter().any(|(n, p)| n == sp && *p);
+                        let mut entries = vec![(format!("{sp}"), sp.to_string(), public_value), (format!("{sp} as {alias}"), alias.to_string(), public_value)];
+                        if upper {
+                            entries.push((format!("type {sp}"), sp.to_string(), false));
+                            entries.push((format!("type {sp} as {alias}"), alias.to_string(), false));
+                        }
+                        for (entry, local, must) in entries {
+                            let first = &local[..1];
+                            for (cname, tpl) in [("statement", "{P}"), ("argument", "main({P})"), ("let value", "let a = {P} a")] {
+                                let body = tpl.replace("{P}", first);
+                                let main = format!("import m.{{{entry}}}\npub fn main() {{ {body} }}\n");
+                                let off = main.rfind(&body).unwrap() + tpl.find("{P}").unwrap() + first.len();
+                                out.push((format!("unqualified-import|{tag}|{entry}|{cname}"), vec![("main".to_string(), main), ("m".to_string(), m.clone())], off, local.clone(), must));
+                            }
+                        }
+                    }
+                }
+            }
+        }
+    }
+    out
+}
+
+fn eval_unqualified_import(mods: &[(String, String)], off: usize, local: &str, must: bool) -> Vec<(String, String)> {
+    let refs: Vec<(&str, &str)> = mods.iter().map(|(n, t)| (n.as_str(), t.as_str())).collect();
+    let ws = Workspace::single(&refs);
+    let files = ws.files();
+    let host = ws.host();
+    let an = host.snapshot();
+    match catch(|| an.completions(FilePos::new(files[0].id, (off as u32).into()), None)) {
+        Ok(Ok(items)) => {
+            let offered: BTreeSet<String> = items.unwrap_or_default().iter().filter(|i| i.kind != ide::CompletionItemKind::Keyword).map(|i| i.label.to_string()).collect();
+            match (must, offered.contains(local)) {
+                (true, false) => vec![("imported-value-not-offered".to_string(), format!("`{local}` is not offered; offered {offered:?}"))],
+                (false, true) => vec![("offers-name-that-is-no-exported-value".to_string(), format!("`{local}` is offered, the module exports no value under the imported spelling"))],
+                _ => vec![],
+            }
+        }
+        other => vec![("completion-failed".to_string(), format!("{other:?}"))],
+    }
+}
+
+fn unqualified_import_layer(rep: &mut Report) {
+    let cases = unqualified_import_cases();
+    let res: Vec<Vec<Violation>> = cases
+        .par_iter()
+        .map(|(name, mods, off, local, must)| {
+            eval_unqualified_import(mods, *off, local, *must)
+                .into_iter()
+                .map(|(class, detail)| {
+                    let parts: Vec<&str> = name.split('|').collect();
+                    // key: the declarations sharing the imported spelling and the entry form
+                    Violation { class, key: format!("unqualified-import|{}|{}", parts[4], parts[5]), witness: json!({"unqualified_import": name}), detail: format!("[{name}] {} // m: {}: {detail}", mods[0].1.trim().replace('\n', " / "), mods[1].1.trim().replace('\n', " / ")) }
+                })
+                .collect()
+        })
+        .collect();
+    let mut l = Layer { name: "unqualified-imports-grid".into(), exhaustive: true, ..Default::default() };
+    let mut musts = 0u64;
+    for (v, c) in res.into_iter().zip(&cases) {
+        l.states += 1;
+        l.executions += 1;
+        l.transitions += 1;
+        musts += c.4 as u64;
+        for x in v {
+            rep.violation(x);
+        }
+    }
+    rep.guard(musts > 100 && musts < l.states, "unqualified-imports grid has offered and not-offered cases");
+    l.bound = format!("{} completions at an expression position of a module importing one name unqualified: every module content over a type `X` (public / private / opaque) with a constructor spelled X, Y or P, an optional second type `Y` (same visibilities) with a constructor spelled X, Y or Q, functions and constants (absent / public / private) x every declared spelling imported plain, with `as`, and as `type` x 3 cursor contexts; the imported name is offered exactly when the module exports a value under that spelling ({} offered, {} not)", cases.len(), musts, l.states - musts);
+    rep.layer(l);
+}
+
 /// What is being typed may spell a keyword or the beginning of one (`use` on the way to `user`):
 /// every offered value name must still replace exactly the typed token.
 fn typed_prefix_cases() -> Vec<(String, String, usize, usize)> {
@@ -812,6 +929,10 @@ pub fn replay(which: Which, w: &Value) -> Vec<String> {
     if let Some(name) = w["typed_prefix"].as_str() {
         let Some((_, text, s, e)) = typed_prefix_cases().into_iter().find(|c| c.0 == name) else { return vec!["unknown typed-prefix case".into()] };
         return eval_typed_prefix(&text, s, e).into_iter().map(|(c, d)| format!("{c}: {d}")).collect();
+    }
+    if let Some(name) = w["unqualified_import"].as_str() {
+        let Some((_, mods, off, local, must)) = unqualified_import_cases().into_iter().find(|c| c.0 == name) else { return vec!["unknown unqualified-import case".into()] };
+        return eval_unqualified_import(&mods, off, &local, must).into_iter().map(|(c, d)| format!("{c}: {d}")).collect();
     }
     if let Some(name) = w["dot_case"].as_str() {
         let Some((_, mods, off, must, may)) = dot_grid_cases().into_iter().find(|c| c.0 == name) else { return vec!["unknown dot case".into()] };
